@@ -770,10 +770,19 @@ Section Wf.
     - intros r Hr. pose proof (owned_bound r (root_owned r Hr)). unfold dfuel. split; lia.
   Qed.
 
+  (* the ancestry table holds what the loop computes *)
+  Lemma d_anc_eq n : d_anc d n = ancestry (d_par d) (d_fuel d) n.
+  Proof.
+    unfold d_anc. destruct (find (fun kv => name_eqb (fst kv) n) (d_ancs d)) as [kv|] eqn:F; [|reflexivity].
+    apply find_some in F as [Hin Heq].
+    change (d_ancs d) with (map (fun n => (n, ancestry (d_par d) (d_fuel d) n)) FL) in Hin.
+    apply in_map_iff in Hin as [n' [<- _]]. simpl in *. apply name_eqb_eq in Heq. subst. reflexivity.
+  Qed.
+
   (* value-level ancestry: transitive closure of the declared inputs *)
   Lemma d_anc_iff n a : owned e n -> In a (d_anc d n) <-> clos_trans name (vedge e) a n.
   Proof.
-    intro Hn. unfold d_anc. rewrite (ancestry_spec (d_par d) rvv).
+    intro Hn. rewrite d_anc_eq. rewrite (ancestry_spec (d_par d) rvv).
     - split; apply ct_incl; intros x y H; [apply d_par_iff | apply d_par_iff in H]; exact H.
     - intros x y H. apply d_par_iff in H. apply vedge_rank. exact H.
     - destruct d_fields as (_ & _ & _ & -> & _). pose proof (owned_bound n Hn). unfold dfuel. lia.
@@ -834,7 +843,7 @@ Section WfTrim.
   Lemma d_trim L :
     d_vis d L = fst (trim_run (kids EE) FBf L (dfuel e FL) RTS) /\
     d_log d L = snd (trim_run (kids EE) FBf L (dfuel e FL) RTS).
-  Proof. split; reflexivity. Qed.
+  Proof. destruct L as [|[|[|[|L]]]]; split; reflexivity. Qed.
   Lemma In_FBf v x : In x (FBf v) <-> In x (fb_of e v).
   Proof. unfold FBf. rewrite In_reorder, In_adds. simpl. tauto. Qed.
   Lemma fb_of_owned v x : In x (fb_of e v) -> owned e x.
